@@ -20,7 +20,7 @@ type c04Case struct {
 }
 
 // one representative per state-table class and per look-ahead trigger
-var c04Alphabet = []string{"a", "e", "1", ".", "-", "/", "*", "'", "\"", "<", ">", "=", "!", "{", "}", "#", ",", " ", "\r", "\n", "é", "中", "😀"}
+var c04Alphabet = []string{"a", "e", "1", ".", "-", "/", "*", "'", "\"", "<", ">", "=", "!", "{", "}", "#", ",", " ", "\r", "\n", "é", "中", "😀", "\\"}
 
 const c04Triggers = "-./<>!{"
 
@@ -211,7 +211,7 @@ func TestC04_Exhaustive(t *testing.T) {
 	rec := evid.New("C04", "TestC04_Exhaustive", "C04", c04Rule)
 	rec.Exhaustive = true
 	rec.DupFree = true
-	rec.Bounds = "all strings of length 0.." + itoa(maxLen) + " over the 23-symbol class alphabet " + strings.Join(c04Alphabet, "") + " x 4 tokenizers"
+	rec.Bounds = "all strings of length 0.." + itoa(maxLen) + " over the " + itoa(len(c04Alphabet)) + "-symbol class alphabet " + strings.Join(c04Alphabet, "") + " x 4 tokenizers"
 	enumStrings(c04Alphabet, maxLen, true, func(parts []string) {
 		in := runesOf(parts)
 		for _, k := range tokKinds {
